@@ -1,7 +1,9 @@
 package main
 
 import (
+	"encoding/json"
 	"fmt"
+	"path/filepath"
 	"os"
 	"runtime"
 	"sort"
@@ -73,8 +75,16 @@ func nproc() int {
 
 func runCheck(prop, tier string) int {
 	switch prop {
-	case "C01", "C02", "C09", "C10", "C11", "C12", "C13", "C16", "C20":
+	case "C01", "C02", "C09", "C10", "C11", "C12", "C13":
 		return runE1(prop, tier)
+	case "C16":
+		return runC16(tier)
+	case "C20":
+		return runC20(tier)
+	case "C14":
+		return runC14(tier)
+	case "C19":
+		return runC19(tier)
 	}
 	fatalf("no check registered for %s", prop)
 	return 2
@@ -246,6 +256,26 @@ func planE1(prop, tier string) *e1Plan {
 			p.add(scopeName3(), cfgNames())
 		}
 		p.rule = "S-name2: all ordered pairs of the 44-name alphabet over interacting type patterns + result-name pairs (+ S-name3 triples in thorough) × {stub,destination} configurations; oracle: identifier validity/distinctness from the AST and zero type errors (captures/shadowing surface as resolution errors)"
+	case "C13":
+		pkgs, expect := scopeC13()
+		p.oracle = oracleC13(expect)
+		p.add(pkgs, K6)
+		p.rule = "every golint initialism in every case pattern (all 2^len for len ≤ 5), affixed variants, ordinary names incl. digits, underscores and non-ASCII letters, and the documented unnamed-parameter types, one parameter per method; oracle: independent copy of the naming rule vs. parameter names of <M>Func / the method and the field name of the <M>Calls() element struct, read from the type-checked output"
+	case "C19":
+		p.oracle = oracleC19
+		p.add(scopeCfg(), cfg24())
+		pr, v := typeScope(1)
+		p.add(pr, K2)
+		p.add(v, K2[:1])
+		p.add(scopeGen(), K2)
+		p.add(scopeEmbed(), K2)
+		p.add(scopeName2("rest"), K2[:1])
+		if thorough {
+			p.add(scopeImp(3, true), K2[:1])
+		} else {
+			p.add(scopeImp(2, true), K2)
+		}
+		p.rule = "every case of the generator-space scopes under the worker watchdog and a 64 MB stack limit; oracle: the generator returns output or an error naming the type or stage; a worker death (stack exhaustion, fatal error), an escaped panic or a watchdog expiry is a violation"
 	default:
 		fatalf("planE1: %s", prop)
 	}
@@ -422,9 +452,71 @@ func sortedCounts(m map[string]int) []string {
 	return ks
 }
 
+// runReplay re-executes one recorded violation without the explorer.
 func runReplay(path string) int {
-	fatalf("replay not implemented yet")
+	b, err := os.ReadFile(path)
+	if err != nil {
+		fatalf("%v", err)
+	}
+	var v struct {
+		Prop   string          `json:"property"`
+		Engine string          `json:"engine"`
+		Diag   string          `json:"diagnostic"`
+		Replay json.RawMessage `json:"replay"`
+	}
+	if err := json.Unmarshal(b, &v); err != nil {
+		fatalf("%s: %v", path, err)
+	}
+	var head struct {
+		Engine string `json:"engine"`
+	}
+	json.Unmarshal(v.Replay, &head)
+	switch head.Engine {
+	case "E1":
+		return replayE1(v.Prop, v.Diag, v.Replay, path)
+	}
+	if fn, ok := replayers[head.Engine]; ok {
+		return fn(v.Prop, v.Diag, v.Replay, path)
+	}
+	fatalf("no replayer for engine %q", head.Engine)
 	return 2
+}
+
+var replayers = map[string]func(prop, diag string, payload json.RawMessage, path string) int{}
+
+func replayE1(prop, diag string, payload json.RawMessage, path string) int {
+	var rp E1Replay
+	if err := json.Unmarshal(payload, &rp); err != nil {
+		fatalf("%v", err)
+	}
+	work := workDir()
+	defer os.RemoveAll(work)
+	sp := &SrcPkg{Dir: rp.PkgDir, Name: "src"}
+	fx := NewFixture(work+"/fx", nil)
+	fx.byDir[rp.PkgDir] = sp
+	for name, content := range rp.Files {
+		writeFile(filepath.Join(fx.Root, rp.PkgDir, name), content)
+	}
+	c := &Case{Dir: rp.PkgDir, Ifaces: rp.Ifaces, Cfg: rp.Cfg, Scope: "replay"}
+	pool := NewPool(1, fx.Env)
+	resp := pool.Fresh(c.req(fx))
+	r := &Result{Case: c, Resp: resp, Fx: fx, Src: fx.Src(rp.PkgDir)}
+	fmt.Printf("replay %s: accepted=%v err=%q died=%q\n", path, r.ok(), resp.Err, firstLines(resp.Died, 2))
+	oracles := map[string]func(*Result) []*Violation{"C01": typeErrors, "C02": oracleC02, "C09": oracleC09, "C10": oracleC10, "C11": oracleC11, "C12": oracleC12, "C19": oracleC19}
+	o := oracles[prop]
+	if o == nil {
+		o = typeErrors
+	}
+	vs := o(r)
+	for _, v := range vs {
+		fmt.Printf("  reproduced: %s\n    %s\n", v.Diag, firstLines(v.Detail, 6))
+	}
+	if len(vs) > 0 {
+		fmt.Printf("VIOLATION property=%s replay=%s\n", prop, path)
+		return 1
+	}
+	fmt.Println("  not reproduced on the current tree")
+	return 0
 }
 
 // validateFixture type-checks every generated source package with the oracle's own
@@ -459,4 +551,27 @@ func validateFixture(fx *Fixture) {
 		}
 		fatalf("fixture packages do not type-check:\n%s", strings.Join(errs, "\n"))
 	}
+}
+
+func runC14(tier string) int {
+	rep := NewReport("C14", tier, "model_checking", "E1+E2")
+	runC14E1(rep, tier)
+	rep.Set("rule", "repetition leg: every case generated 3x in one process with fresh Mockers and once in another process, bytes compared (samples the runtime's map order); order leg (E2): see states/transitions")
+	if _, ok := rep.Cov["distinct_nontrivial"]; !ok {
+		rep.Set("distinct_nontrivial", rep.Cov["repetition_leg_distinct_outputs"])
+	}
+	return rep.Finish()
+}
+
+func runC19(tier string) int {
+	rep := NewReport("C19", tier, "model_checking", "E1+E2+E5")
+	plan := planE1("C19", tier)
+	work := workDir()
+	defer os.RemoveAll(work)
+	fx := NewFixture(work+"/fx", dedupPkgs(plan.pkgs))
+	validateFixture(fx)
+	runCases(fx, plan.cases, rep, plan.oracle)
+	rep.Set("rule", plan.rule)
+	rep.Set("bounds", plan.bounds)
+	return rep.Finish()
 }
